@@ -136,6 +136,13 @@ check(
     "P17d (sqlalchemy kinds with a non-identity template define the un-templated name) relaxes only the defined-names / re-parse clauses for those cells; SQLAlchemy-class, Table and JSON-schema *inputs* are not generated (P37).",
 )
 
+check(
+    "C20",
+    "Hypothesis-generated package trees x configuration, with dry-run x output-directory state (absent/empty/populated by a previous real run) enumerated inside each case; recursive file-system snapshot diff plus sys.addaudithook write-event log as oracle",
+    "Generated-input search over layouts and option combinations, each case a short history (optional previous real run, then the observed run): dry-run must leave the snapshot of the whole temp root identical and raise no write/mkdir/remove/rename audit event; a real run may only create or modify paths under the output directory, must leave the source package subtree identical, every generated *.py must parse and its __all__ must name symbols the file defines or imports.",
+    "P31 (pydantic/json_schema/sqlalchemy kinds raise) keeps only the containment clauses for those kinds; P56 (black/whitelist FQN never matches) relaxes the blacklist clause; audit events are Python-level.",
+)
+
 NOT_YET = "check not built yet in this round (work in progress; DESIGN.md section 4 has the plan)"
 
 
